@@ -176,7 +176,7 @@ func (w *world) buildGenesis(nVals int) {
 	for i, kind := range []string{"ed25519", "secp256k1", "ethsecp", "ed25519", "ethsecp"} {
 		a := addActor(kind, fmt.Sprintf("client%d", i), false)
 		amt := []uint64{30_000_000, 0, 1, 25_000_000, 100_000}[(i+t.Intn(5))%5]
-		if kind == "ethsecp" && t.Chance(2, 3) {
+		if (kind == "ethsecp" || kind == "secp256k1") && t.Chance(2, 3) {
 			amt = 40_000_000
 		}
 		w.genesis.Accounts = append(w.genesis.Accounts, &fsm.Account{Address: a.addr, Amount: amt})
